@@ -1,7 +1,441 @@
-"""C10, weave clause: interleave and deinterleave are mutually inverse permutations.
-(Closed-form loop summarisation; not built yet -- the clause is reported as undecided.)"""
+"""C10, weave clause: interleave and deinterleave are mutually inverse, length-preserving permutations of positions.
+
+Closed-form summarisation of the two weave functions (engine B's affine domain, no unrolling): the data length
+is L = 2m + rho (rho in {0,1}, m >= 0 symbolic); every `while` loop whose counters advance by constants and whose
+test is affine gets the trip count T = floor(g0 / -gamma) + 1 (0 if g0 < 0); each store in a loop becomes a
+*family* (dst(k), src(k)) for 0 <= k < T.  Then, per parity and per path:
+  W3  every access is inside the buffers, and the side that is read (interleave) / written (deinterleave) in order
+      covers 0..L-1 exactly once  => each function is a total map applying one permutation of positions
+  W4  deinterleave(interleave(x)) = x family by family (an early return counts as the identity family)
+Unknown statement forms give exit 2 (the clause is then undecided, never assumed).
+"""
+import ast
+
+from .. import affine as B
+from ..affine import Aff
+from ..core import AnalysisError
+from ..index import walk_no_nested
+
+
+class Family:
+    def __init__(self, dst_buf, dst0, dstd, src_buf, src0, srcd, T):
+        self.dst_buf, self.dst0, self.dstd = dst_buf, dst0, dstd  # dst(k) = dst0 + dstd*k
+        self.src_buf, self.src0, self.srcd = src_buf, src0, srcd
+        self.T = T
+
+    def dst(self, k):
+        return self.dst0 + Aff.of(k).scale(self.dstd)
+
+    def src(self, k):
+        return self.src0 + Aff.of(k).scale(self.srcd)
+
+
+class Unknown(AnalysisError):
+    pass
+
+
+class Summary:
+    """Executes one weave function abstractly; result: families, or identity (early return / no commit)."""
+
+    def __init__(self, fn, L, consts=None):
+        self.fn = fn
+        self.L = L
+        self.consts = consts or {}
+        self.data = fn.args.args[0].arg
+        self.buffer = None
+        self.env = {}
+        self.families = []
+        self.committed = False
+        self.returned = False
+
+    def run(self):
+        body = [st for st in self.fn.body if not (isinstance(st, ast.Expr) and isinstance(st.value, ast.Constant))]
+        self.block(body)
+        return self
+
+    def expr(self, e):
+        if isinstance(e, ast.Constant) and isinstance(e.value, int):
+            return Aff(e.value)
+        if isinstance(e, ast.Name):
+            if e.id in self.env:
+                return self.env[e.id]
+            if isinstance(self.consts.get(e.id), int) and not isinstance(self.consts.get(e.id), bool):
+                return Aff(self.consts[e.id])
+            raise Unknown("name %s in a weave function" % e.id)
+        if isinstance(e, ast.Call) and isinstance(e.func, ast.Name) and e.func.id == "len" and len(e.args) == 1 and isinstance(e.args[0], ast.Name) \
+                and e.args[0].id in (self.data, self.buffer):
+            return self.L
+        if isinstance(e, ast.BinOp):
+            a, b = self.expr(e.left), self.expr(e.right)
+            if isinstance(e.op, ast.Add):
+                return a + b
+            if isinstance(e.op, ast.Sub):
+                return a - b
+            if isinstance(e.op, ast.Mult):
+                return B.mul(a, b)
+            if isinstance(e.op, (ast.FloorDiv, ast.Mod)):
+                bb = B.norm(b)
+                if bb.is_const() and bb.c > 0:
+                    q, r = B.divmod_const(a, int(bb.c))
+                    return q if isinstance(e.op, ast.FloorDiv) else r
+        if isinstance(e, ast.UnaryOp) and isinstance(e.op, ast.USub):
+            return -self.expr(e.operand)
+        raise Unknown("expression %s in a weave function" % ast.unparse(e))
+
+    def test(self, t):
+        """-> form g with the meaning g >= 0, for an affine comparison."""
+        if isinstance(t, ast.Compare) and len(t.ops) == 1:
+            a, b = self.expr(t.left), self.expr(t.comparators[0])
+            op = t.ops[0]
+            if isinstance(op, ast.Lt):
+                return ("ge", b - a - 1)
+            if isinstance(op, ast.LtE):
+                return ("ge", b - a)
+            if isinstance(op, ast.Gt):
+                return ("ge", a - b - 1)
+            if isinstance(op, ast.GtE):
+                return ("ge", a - b)
+            if isinstance(op, ast.Eq):
+                return ("eq", a - b)
+            if isinstance(op, ast.NotEq):
+                return ("ne", a - b)
+        raise Unknown("test %s in a weave function" % ast.unparse(t))
+
+    def decide(self, t, label):
+        kind, g = self.test(t)
+        if kind == "ge":
+            return B.decide_ge0(g, label)
+        r = B.decide_eq0(g, label)
+        return r if kind == "eq" else not r
+
+    def block(self, body):
+        for st in body:
+            if self.returned:
+                return
+            self.stmt(st)
+
+    def stmt(self, st):
+        if isinstance(st, ast.Assign) and len(st.targets) == 1:
+            t, v = st.targets[0], st.value
+            if isinstance(t, ast.Name):
+                if isinstance(v, ast.Call) and ast.unparse(v) == "bytearray(len(%s))" % self.data:
+                    self.buffer = t.id
+                    return
+                self.env[t.id] = self.expr(v)
+                return
+            if isinstance(t, ast.Subscript) and isinstance(t.value, ast.Name):
+                if isinstance(t.slice, ast.Slice) and t.value.id == self.data and t.slice.lower is None and t.slice.upper is None \
+                        and isinstance(v, ast.Name) and v.id == self.buffer:
+                    self.committed = True
+                    return
+                if isinstance(v, ast.Subscript) and isinstance(v.value, ast.Name) and not isinstance(t.slice, ast.Slice) and not isinstance(v.slice, ast.Slice):
+                    # a single element copy outside a loop: a family of one
+                    self.families.append(Family(t.value.id, self.expr(t.slice), 0, v.value.id, self.expr(v.slice), 0, Aff(1)))
+                    return
+            raise Unknown("assignment %s in a weave function" % ast.unparse(st))
+        if isinstance(st, ast.AugAssign) and isinstance(st.target, ast.Name) and isinstance(st.op, (ast.Add, ast.Sub)):
+            d = self.expr(st.value)
+            self.env[st.target.id] = self.env[st.target.id] + (d if isinstance(st.op, ast.Add) else -d)
+            return
+        if isinstance(st, ast.If):
+            if self.decide(st.test, "%s@%d" % (ast.unparse(st.test), st.lineno)):
+                self.block(st.body)
+            else:
+                self.block(st.orelse)
+            return
+        if isinstance(st, ast.Return) and st.value is None:
+            self.returned = True
+            return
+        if isinstance(st, ast.While):
+            self.loop(st)
+            return
+        if isinstance(st, ast.Pass) or (isinstance(st, ast.Expr) and isinstance(st.value, ast.Constant)):
+            return
+        raise Unknown("statement %s in a weave function" % ast.unparse(st)[:60])
+
+    def loop(self, st):
+        if st.orelse:
+            raise Unknown("while-else")
+        kind, g0 = self.test(st.test)
+        if kind != "ge":
+            raise Unknown("loop test %s is not an inequality" % ast.unparse(st.test))
+        # execute the body once with every variable at its iteration-k value v0 + delta*k; deltas are found by
+        # executing the body on the entry state first (they must be constants independent of k)
+        entry = dict(self.env)
+        fams_before = len(self.families)
+        self.block_loop_body(st.body)
+        deltas = {}
+        for v in self.env:
+            d = B.norm(self.env[v] - entry.get(v, self.env[v]))
+            if not d.is_const():
+                raise Unknown("variable %s does not advance by a constant in the loop at line %d" % (v, st.lineno))
+            deltas[v] = d.c
+        first = self.families[fams_before:]
+        del self.families[fams_before:]
+        self.env = dict(entry)
+        gk = B.norm(self.test(st.test)[1])
+        # per-iteration change of the loop test
+        env1 = {v: entry[v] + Aff(deltas[v]) for v in entry}
+        self.env = env1
+        g1 = B.norm(self.test(st.test)[1])
+        self.env = dict(entry)
+        gamma = B.norm(g1 - gk)
+        if not gamma.is_const() or gamma.c >= 0:
+            raise Unknown("loop at line %d: the test does not decrease by a constant per iteration" % st.lineno)
+        step = int(-gamma.c)
+        if B.decide_ge0(gk, "loop@%d entered" % st.lineno):
+            q, _ = B.divmod_const(gk, step)
+            T = q + 1
+        else:
+            T = Aff(0)
+        for f in first:
+            # f was recorded at k = 0; its per-iteration strides come from the deltas of the variables it used
+            self.families.append(Family(f.dst_buf, f.dst0, f.dstd_fn(deltas), f.src_buf, f.src0, f.srcd_fn(deltas), T))
+        self.env = {v: entry[v] + Aff.of(T).scale(deltas[v]) for v in entry}
+
+    def block_loop_body(self, body):
+        for st in body:
+            if isinstance(st, ast.Assign) and len(st.targets) == 1 and isinstance(st.targets[0], ast.Subscript) and isinstance(st.value, ast.Subscript) \
+                    and isinstance(st.targets[0].value, ast.Name) and isinstance(st.value.value, ast.Name) \
+                    and not isinstance(st.targets[0].slice, ast.Slice) and not isinstance(st.value.slice, ast.Slice):
+                t, v = st.targets[0], st.value
+                snapshot = dict(self.env)
+                d0, s0 = self.expr(t.slice), self.expr(v.slice)
+                f = Family(t.value.id, d0, None, v.value.id, s0, None, None)
+                f.dstd_fn = self._stride(t.slice, snapshot)
+                f.srcd_fn = self._stride(v.slice, snapshot)
+                self.families.append(f)
+            elif isinstance(st, ast.AugAssign) and isinstance(st.target, ast.Name) and isinstance(st.op, (ast.Add, ast.Sub)):
+                d = self.expr(st.value)
+                if not B.norm(d).is_const():
+                    raise Unknown("loop counter advanced by a non-constant")
+                self.env[st.target.id] = self.env[st.target.id] + (d if isinstance(st.op, ast.Add) else -d)
+            else:
+                raise Unknown("statement %s in a weave loop" % ast.unparse(st)[:60])
+
+    def _stride(self, index_expr, env_at_store):
+        """How much the index expression changes from one iteration to the next: evaluate it with every variable
+        shifted by its per-iteration delta."""
+        def fn(deltas, index_expr=index_expr, env_at_store=env_at_store):
+            saved = self.env
+            self.env = env_at_store
+            a = self.expr(index_expr)
+            self.env = {v: env_at_store[v] + Aff(deltas.get(v, 0)) for v in env_at_store}
+            b = self.expr(index_expr)
+            self.env = saved
+            d = B.norm(b - a)
+            if not d.is_const():
+                raise Unknown("index stride is not constant")
+            return int(d.c)
+        return fn
 
 
 def inverse_permutations(rep, index, m):
-    rep.undecided.append("interleave/deinterleave are mutually inverse permutations of positions: needs closed-form "
-                         "summaries of the two weave loops (affine counters, parity split); not decided in this version")
+    fi, fd = m.functions["interleave"], m.functions["deinterleave"]
+    n_paths = 0
+    del _PENDING[:], _FAILED[:]
+    for rho in (0, 1):
+        def task(rho=rho):
+            half = B.fresh("m", 0, None)
+            L = half.scale(2) + rho
+            si = Summary(fi, L, m.consts).run()
+            sd = Summary(fd, L, m.consts).run()
+            return L, si, sd, half
+        try:
+            paths = B.explore(task)
+        except Unknown as e:
+            raise AnalysisError("weave clause undecidable on this tree: %s" % e)
+        for p, st, val in paths:
+            B.set_path(p)
+            n_paths += 1
+            where = "len = 2m+%d path[%s]" % (rho, ",".join("%s=%s" % (k, "T" if v else "F") for k, v in p.log) or "-")
+            if st != "ok":
+                rep.ob("C10.W3 weave-total", where, False, "raises")
+                continue
+            L, si, sd, half = val
+            fam_i = _effective(si)
+            fam_d = _effective(sd)
+            lo, hi = B.bounds(half)
+            lo = int(lo or 0)
+            lengths = [2 * h + rho for h in range(lo, lo + 24) if hi is None or h <= hi]
+            witness = _Witness(fi, fd, m.consts, lengths)
+            _total_map(rep, "interleave", where, si, fam_i, L, "src", witness)
+            _total_map(rep, "deinterleave", where, sd, fam_d, L, "dst", witness)
+            _composition(rep, where, fam_i, fam_d, L, witness)
+    rep.count("weave paths", n_paths)
+    rep.floor("weave paths", 2)
+    if _PENDING and not _FAILED:
+        raise AnalysisError(_PENDING[0])
+
+
+class _Witness:
+    """A symbolic mismatch is reported only with a concrete length at which the closed-form summaries (instantiated,
+    all forms constant) really fail; a mismatch without one is a decomposition the matcher does not understand
+    (exit 2), never an alarm."""
+
+    def __init__(self, fi, fd, consts, lengths):
+        self.fi, self.fd, self.consts, self.lengths = fi, fd, consts, lengths
+
+    def _perm(self, fn, n):
+        """-> list p with out[p_dst] = in[p_src] as dst->src map, or None (identity), or a string (what is wrong)."""
+        s = Summary(fn, Aff(n), self.consts).run()
+        if not s.committed:
+            return None
+        out = {}
+        for f in s.families:
+            T = B.const_of(f.T)
+            if T is None:
+                raise Unknown("trip count not constant at a concrete length")
+            if (f.dst_buf, f.src_buf) != (s.buffer, s.data):
+                return "copies %s <- %s" % (f.dst_buf, f.src_buf)
+            for k in range(int(T)):
+                d, sidx = B.const_of(f.dst(k)), B.const_of(f.src(k))
+                if d is None or sidx is None:
+                    raise Unknown("index not constant at a concrete length")
+                for nm, ix in (("store", d), ("load", sidx)):
+                    if not -n <= ix < n:
+                        return "%s index %d outside a buffer of %d" % (nm, ix, n)
+                out[int(d) % n if n else int(d)] = int(sidx) % n if n else int(sidx)
+        if sorted(out) != list(range(n)) or sorted(out.values()) != list(range(n)):
+            missing = sorted(set(range(n)) - set(out))
+            unread = sorted(set(range(n)) - set(out.values()))
+            return "positions %s never written, positions %s never read" % (missing[:4], unread[:4])
+        return [out[i] for i in range(n)]
+
+    def not_total(self, which):
+        fn = self.fi if which == "interleave" else self.fd
+        for n in self.lengths:
+            r = self._perm(fn, n)
+            if isinstance(r, str):
+                return "length %d: %s" % (n, r)
+        return None
+
+    def not_inverse(self):
+        for n in self.lengths:
+            a, b = self._perm(self.fi, n), self._perm(self.fd, n)
+            if isinstance(a, str) or isinstance(b, str):
+                continue  # W3's business
+            a = a if a is not None else list(range(n))
+            b = b if b is not None else list(range(n))
+            # y = interleave(x): y[i] = x[a[i]];  z = deinterleave(y): z[i] = y[b[i]] = x[a[b[i]]]
+            for i in range(n):
+                if a[b[i]] != i:
+                    return "length %d: position %d comes back from position %d" % (n, i, a[b[i]])
+            for i in range(n):
+                if b[a[i]] != i:
+                    return "length %d (interleave after deinterleave): position %d comes back from position %d" % (n, i, b[a[i]])
+        return None
+
+
+_PENDING = []
+_FAILED = []
+
+
+def _confirm(rep, rule, inst, ok, why, witness_fn):
+    """ok -> discharged; not ok -> violation only with a concrete witness length, otherwise analysis failure."""
+    if ok:
+        rep.ob(rule, inst, True, why)
+        return
+    try:
+        w = witness_fn()
+    except Unknown as e:
+        raise AnalysisError("weave clause: symbolic mismatch (%s) and the summaries cannot be instantiated: %s" % (why, e))
+    if w is None:
+        _PENDING.append("weave clause: %s %s: symbolic argument fails (%s) but the instantiated summaries agree at every "
+                        "examined length; the decomposition is not understood -- undecided" % (rule, inst, why))
+        return
+    _FAILED.append(inst)
+    rep.ob(rule, inst, False, "%s; witness %s" % (why, w))
+
+
+def _effective(s):
+    """Families that take effect: none if the function returned before committing its buffer."""
+    if not s.committed:
+        return None  # identity
+    return s.families
+
+
+def _total_map(rep, name, where, s, fams, L, ordered, witness):
+    inst = "%s %s" % (name, where)
+    if fams is None:
+        rep.ob("C10.W3 each-function-applies-one-permutation", inst, not s.families or True,
+               "returns before committing: the identity on this path")
+        return
+    ok = True
+    why = []
+    base = Aff(0)
+    for j, f in enumerate(fams):
+        bufs_ok = (f.dst_buf == s.buffer and f.src_buf == s.data)
+        if not bufs_ok:
+            ok = False
+            why.append("family %d copies %s <- %s" % (j, f.dst_buf, f.src_buf))
+            continue
+        nonempty = B.prove_ge0(f.T - 1)
+        if nonempty is False:
+            continue
+        side0, sided = (f.src0, f.srcd) if ordered == "src" else (f.dst0, f.dstd)
+        o0, od = (f.dst0, f.dstd) if ordered == "src" else (f.src0, f.srcd)
+        # ordered side: contiguous ascending from where the previous family stopped
+        if sided != 1 or not B.is_zero(side0 - base):
+            ok = False
+            why.append("family %d: the %s side starts at %r (expected %r) with stride %s" % (j, ordered, B.norm(side0), B.norm(base), sided))
+        base = base + f.T
+        # other side: inside the buffer at both ends (affine => everywhere in between)
+        last = o0 + (Aff.of(f.T) - 1).scale(od)
+        for pos, nm in ((o0, "first"), (last, "last")):
+            inb = B.prove_ge0(pos) is True and B.prove_ge0(L - 1 - pos) is True
+            if nonempty is True and not inb:
+                ok = False
+                why.append("family %d: %s index %r not proved inside 0..len-1" % (j, nm, B.norm(pos)))
+            if nonempty is None:
+                ok = False
+                why.append("family %d: emptiness undecided" % j)
+    if not B.is_zero(base - L):
+        ok = False
+        why.append("the %s side covers %r positions, the data has %r" % (ordered, B.norm(base), B.norm(L)))
+    _confirm(rep, "C10.W3 each-function-applies-one-permutation", inst, ok,
+             "; ".join(why) or "%d famil%s: the %s side runs through 0..len-1 exactly once, every other index is inside the buffer"
+             % (len(fams), "y" if len(fams) == 1 else "ies", ordered), lambda: witness.not_total(name))
+
+
+def _composition(rep, where, fam_i, fam_d, L, witness):
+    inst = "deinterleave(interleave(.)) %s" % where
+    if fam_i is None and fam_d is None:
+        rep.ob("C10.W4 mutually-inverse", inst, True, "both are the identity on this path")
+        return
+
+    def identity(fams):
+        for f in fams:
+            if B.prove_ge0(f.T - 1) is False:
+                continue
+            first = B.norm(f.dst0 - f.src0)
+            last = B.norm(f.dst(f.T - 1) - f.src(f.T - 1))
+            if not (B.is_zero(first) and B.is_zero(last)):
+                return False, "moves position %r to %r" % (B.norm(f.src0), B.norm(f.dst0)) if not B.is_zero(first) else \
+                    "moves position %r to %r" % (B.norm(f.src(f.T - 1)), B.norm(f.dst(f.T - 1)))
+        return True, ""
+    if fam_i is None or fam_d is None:
+        other = fam_d if fam_i is None else fam_i
+        ok, why = identity(other)
+        _confirm(rep, "C10.W4 mutually-inverse", inst, ok,
+                 "one function returns early (identity) on this path while the other %s" % (why or "is the identity too"), witness.not_inverse)
+        return
+    if len(fam_i) != len(fam_d):
+        _confirm(rep, "C10.W4 mutually-inverse", inst, False,
+                 "interleave has %d copy families, deinterleave %d" % (len(fam_i), len(fam_d)), witness.not_inverse)
+        return
+    ok = True
+    why = []
+    for j, (f, g) in enumerate(zip(fam_i, fam_d)):
+        # the element interleave moves src(k) -> dst(k) must be picked up by deinterleave at src'(k) = dst(k) and put back at dst'(k) = src(k)
+        same_T = B.is_zero(f.T - g.T)
+        if same_T and B.prove_ge0(f.T - 1) is False:
+            continue  # both families are empty on this path
+        picks = B.is_zero(g.src0 - f.dst0) and g.srcd == f.dstd
+        puts = B.is_zero(g.dst0 - f.src0) and g.dstd == f.srcd
+        if not (same_T and picks and puts):
+            ok = False
+            why.append("family %d: interleave moves %r+%dk -> %r+%dk (k < %r), deinterleave moves %r+%dk -> %r+%dk (k < %r)"
+                       % (j, B.norm(f.src0), f.srcd, B.norm(f.dst0), f.dstd, B.norm(f.T), B.norm(g.src0), g.srcd, B.norm(g.dst0), g.dstd, B.norm(g.T)))
+    _confirm(rep, "C10.W4 mutually-inverse", inst, ok, "; ".join(why) or "every family of deinterleave undoes the corresponding family of interleave",
+             witness.not_inverse)
